@@ -18,10 +18,11 @@
        instruction iterator, written with an explicit index cursor, read_scriptint, and
        lex.rs's token loop) never indexes or slices out of bounds on ANY byte string and
        stops within len(script) steps;
-     - planner_refuted : plan.rs is_key_direct_child_of AS CODED reaches its `len - 1`
-       underflow (witness: a descriptor key with an empty derivation path, DESIGN 10-f);
-       planner_total / planner_fix_conservative : the repaired function is total, meets the
-       doc comment's specification, and agrees with the original wherever that returns;
+     - planner_total / planner_has_key_total : plan.rs is_key_direct_child_of and
+       Assets::has_ecdsa_key AS WRITTEN (after the repair of DESIGN 10-f, /repo 540253fb) are
+       total and meet the doc comment's specification; planner_repair_conservative : the
+       repair agrees with the earlier code wherever that returned (it panicked on an empty
+       key path: Example planner_regression_witness);
      - pre_order_iter_total : iter/tree.rs PreOrderIter yields the recursive pre-order in
        exactly n = size steps (n are necessary and sufficient) with a stack that never
        exceeds  max(1, max arity) * height  entries;
@@ -80,30 +81,26 @@ Theorem lex_never_indexes_out_of_bounds : forall (script : bytes) (site : N), le
 Proof. exact lex_never_panics. Qed.
 Print Assumptions lex_never_indexes_out_of_bounds.
 
-(* FINDING (DESIGN 10-f): the planner's key matching, as coded, panics *)
-Theorem planner_refuted : exists pk_paths dp, child_of pk_paths dp = RPanic P_SUB_UNDERFLOW.
-Proof. exact planner_refuted_proof. Qed.
-Print Assumptions planner_refuted.
-
-Theorem planner_refuted_assets : forall fp, has_ecdsa_key [mkAssetKey fp [1; 2] true] fp [[]] = RPanic P_SUB_UNDERFLOW.
-Proof. exact planner_refuted_assets_proof. Qed.
-Print Assumptions planner_refuted_assets.
-
-(* ... and only in that class of inputs: an empty full derivation path and a non-empty asset path *)
-Theorem planner_panic_class : forall pk_paths dp s,
-  child_of pk_paths dp = RPanic s -> s = P_SUB_UNDERFLOW /\ In [] pk_paths /\ dp <> [].
-Proof. exact child_of_panic_iff. Qed.
-Print Assumptions planner_panic_class.
-
+(* plan.rs is_key_direct_child_of AS WRITTEN (after /repo 540253fb, which repaired DESIGN 10-f):
+   total, and true exactly when the doc comment's relation holds *)
 Theorem planner_total : forall pk_paths dp,
-  exists b, child_of_fixed pk_paths dp = ROk b /\ (b = true <-> child_of_spec pk_paths dp).
+  exists b, child_of pk_paths dp = ROk b /\ (b = true <-> child_of_spec pk_paths dp).
 Proof. exact planner_total_proof. Qed.
 Print Assumptions planner_total.
 
-Theorem planner_fix_conservative : forall pk_paths dp b,
-  child_of pk_paths dp = ROk b -> child_of_fixed pk_paths dp = ROk b.
-Proof. exact planner_fix_conservative_proof. Qed.
-Print Assumptions planner_fix_conservative.
+(* Assets::has_ecdsa_key (what provider_lookup_ecdsa_sig calls) never panics and finds exactly
+   the ECDSA-capable asset keys with the key's fingerprint that are direct parents *)
+Theorem planner_has_key_total : forall keys pk_fp pk_paths,
+  exists b, has_ecdsa_key keys pk_fp pk_paths = ROk b /\
+    (b = true <-> exists a, In a keys /\ ak_ecdsa a = true /\ pk_fp = ak_fp a /\ child_of_spec pk_paths (ak_path a)).
+Proof. exact planner_has_key_total_proof. Qed.
+Print Assumptions planner_has_key_total.
+
+(* the repair changed nothing where the earlier code (len - 1 on the path) returned *)
+Theorem planner_repair_conservative : forall pk_paths dp b,
+  child_of_before_540253fb pk_paths dp = ROk b -> child_of pk_paths dp = ROk b.
+Proof. exact planner_repair_conservative_proof. Qed.
+Print Assumptions planner_repair_conservative.
 
 Theorem pre_order_iter_total_C11 : forall t : rtree,
   pre_run (rsize t) [t] = Some (preorder t) /\
@@ -138,7 +135,11 @@ Proof. vm_compute. reflexivity. Qed.
 Example lex_example_pushdata4 : lex_model [78; 255; 255; 255; 255] = RErr E_EARLY_END.
 Proof. vm_compute. reflexivity. Qed.
 
-Example planner_ok_example : child_of [[1; 2; 3]] [1; 2] = ROk true /\ child_of_fixed [[]] [1; 2] = ROk false.
+Example planner_ok_example : child_of [[1; 2; 3]] [1; 2] = ROk true /\ child_of [[]] [1; 2] = ROk false.
+Proof. split; vm_compute; reflexivity. Qed.
+(* the input on which the code before 540253fb panicked (kept as the regression witness) *)
+Example planner_regression_witness :
+  child_of_before_540253fb [[]] [1; 2] = RPanic P_SUB_UNDERFLOW /\ has_ecdsa_key [mkAssetKey 7 [1; 2] true] 7 [[]] = ROk false.
 Proof. split; vm_compute; reflexivity. Qed.
 
 Example pre_order_example :
